@@ -54,7 +54,7 @@ class Gen:
     """layout: 0 canonical, 1 mild, 2 wild.  crlf: line endings.  profile: weights of item kinds."""
 
     def __init__(self, g, layout=1, crlf=False, p_doc=0.5, max_depth=3, max_items=6, malformed=0.0,
-                 weights=None, doc_lines=None, idents=None, lg=None, doc_blocks=None, p_gap=0.12, p_docimpl=0.0, p_dup=0.0, p_stale=0.0, same_line=0.0, p_bracketish=0.05):
+                 weights=None, doc_lines=None, idents=None, lg=None, doc_blocks=None, p_gap=0.12, p_docimpl=0.0, p_dup=0.0, p_stale=0.0, same_line=0.0, p_bracketish=0.05, p_cont=0.06):
         # g decides the module's content (its token sequence); lg decides only the layout, so the same content seed
         # with different layout seeds yields layout variants of one module
         self.g = g; self.lg = lg if lg is not None else g; self.layout = layout; self.crlf = crlf; self.p_doc = p_doc; self.max_depth = max_depth
@@ -63,7 +63,7 @@ class Gen:
         self.doc_lines = doc_lines or DOC_LINES
         self.doc_blocks = doc_blocks
         self.p_gap = p_gap; self.p_docimpl = p_docimpl; self.p_dup = p_dup; self.p_stale = p_stale
-        self.same_line = same_line; self.last_was_call = False; self.p_bracketish = p_bracketish
+        self.same_line = same_line; self.last_was_call = False; self.p_bracketish = p_bracketish; self.p_cont = p_cont
         self.idents = idents or IDENTS
         self.n_items = 0
         self.class_names = []       # names of the classes that are open where the next item is generated
@@ -327,7 +327,7 @@ class Gen:
                     if g.random() < 0.6: toks[j] = ['b', g.choice(LONG_BARE)] if g.random() < 0.5 else ['q', g.choice(LONG_QUOTED)]
                 if len(toks) == 1 or g.random() < 0.3: toks += [['b', g.choice(LONG_BARE)] for _ in range(g.randint(1, 12))]
             if len(toks) == 2 and g.random() < self.p_bracketish: toks[1] = ['b', g.choice(['[0-9]', '[abc]', '[x]', '[a-z]+', '[', ']', '[]', '[=', 'x[1]'])]     # unquoted arguments that only look like bracket arguments
-            if len(toks) == 2 and g.random() < 0.06: toks[1] = ['q', g.choice(['Hello, \\\nworld', 'a\\\n   b\\\nc', '\\\n', 'x \\\n'])]     # quoted line continuations
+            if len(toks) == 2 and g.random() < self.p_cont: toks[1] = ['q', g.choice(['Hello, \\\nworld', 'a\\\n   b\\\nc', '\\\n', 'x \\\n'])]     # quoted line continuations
             if len(toks) == 2 and g.random() < 0.04: toks[1] = g.choice([['b', '--------'], ['q', '===='], ['b', '....'], ['q', '~~~~~']])   # a value that is reST markup (K10)
             if len(toks) >= 2 and g.random() < 0.1:      # the cache form of set(): to CMinx the keywords are values like any other
                 toks += [self.tok('CACHE'), self.tok(g.choice(['STRING', 'BOOL', 'PATH', 'INTERNAL'])), ['q', g.choice(['where it lives', '', 'help: text'])]] + ([self.tok('FORCE')] if g.random() < 0.5 else [])
